@@ -1689,6 +1689,18 @@ def Q_rules(ctx, rule="Q"):
         # condition on a value (a comparison, a boolean call) decides whether an item is passed to it
         if key in ("map", "fold", "try_fold", "for_each", "try_for_each"):
             pc_sites = [(bx, bbx, tx) for bx in m.reach_bodies(b.id) for bbx, tx, pn in m.param_calls(bx)]
+            # the callback handed to an adaptor as a value (`.map(&mut fn_map)`): invoked by the adaptor for each item it gets
+            gen_in = {x["s"].lstrip("&").replace("mut ", "").strip() for x in f["inputs"]}
+            gen_in = {g for g in gen_in if g.isidentifier() and g not in ("Seed", "Self", "usize", "bool")}
+            for bx in m.reach_bodies(b.id):
+                for bbx, tx in bx.calls():
+                    if is_param_call(tx) or (callee_path(tx) or "") in fb.bodies:
+                        continue
+                    for a_ in tx["args"][1:]:
+                        aty = (a_.get("pl") or {}).get("ty") or a_.get("ty") or ""
+                        if aty.lstrip("&").replace("mut ", "").strip() in gen_in and (callee_path(tx) or "").split("::")[-1] in (
+                                "map", "for_each", "try_for_each", "fold", "try_fold", "and_then", "map_or", "inspect"):
+                            pc_sites.append((bx, bbx, tx))
             okq7 = bool(pc_sites)
             whyq7 = "no invocation of the caller's callback is reachable from %s: it visits the functions without running anything" % key
             for bx, bbx, tx in pc_sites:
